@@ -37,6 +37,8 @@ impl<T: UciTx, H: Heuristic, M: MoveOrder> Search<T, H, M> {
     }
 
     pub fn idle(&mut self) {
+        #[cfg(inkayaku_verif)]
+        crate::engine::verif::claim();
         while !self.flags.quit_as_soon_as_possible {
             if let Ok(message) = self.search_rx.recv() {
                 match message {
@@ -147,8 +149,12 @@ impl<T: UciTx, H: Heuristic, M: MoveOrder> Search<T, H, M> {
 
         self.state.is_running = true;
         self.state.started_at = SystemTime::now();
+        #[cfg(inkayaku_verif)]
+        crate::engine::verif::board("before_search", &self.state.bitboard);
 
         let (best_move, ponder_move) = self.best_move();
+        #[cfg(inkayaku_verif)]
+        crate::engine::verif::board("after_search", &self.state.bitboard);
         self.uci_tx.best_move(best_move, ponder_move);
 
         self.state.is_running = false;
@@ -291,6 +297,10 @@ impl<T: UciTx, H: Heuristic, M: MoveOrder> Search<T, H, M> {
 
     #[inline(always)]
     fn should_check_flags(&mut self) -> bool {
+        #[cfg(inkayaku_verif)]
+        if let Some(answer) = crate::engine::verif::poll(self.state.metrics.last.negamax_nodes) {
+            return answer;
+        }
         self.state.metrics.last.negamax_nodes % 100_000 == 0 && self.state.metrics.last.negamax_nodes > 0
     }
 
@@ -640,6 +650,10 @@ impl SearchState {
     }
 
     fn elapsed(&self) -> Duration {
+        #[cfg(inkayaku_verif)]
+        if let Some(virtual_elapsed) = crate::engine::verif::elapsed(self.metrics.last.total_nodes()) {
+            return virtual_elapsed;
+        }
         self.started_at.elapsed().unwrap_or(Duration::ZERO)
     }
 }
